@@ -17,6 +17,13 @@ def run(ck, tier):
     ck.not_decided += ["that applying a suggestion yields exactly the spliced text (value-level)", "that every rule's lint span lies inside the text (41 match_to_lint bodies, values)"]
     p = facts.load()
     byk = fns_by_key(p)
+    ck.rule("R-C03-units", "a lint span counts characters: in harper_core::linting no byte length or byte position of a str/String (len, find, rfind, match_indices, char_indices ...) reaches Span::new / new_with_len / a Span literal / push_by / pull_by or an index into the char source unless it went through chars().count() (lengths of ASCII literals excepted): behind the first non-ASCII character of the document such a span is displaced, covers other characters than the flagged ones and can end past the text (rule instances of R-C04-units)")
+    try:
+        import re as _re
+        from . import c04
+        c04._byte_lengths(c05._Sub(ck, "R-C03-units", ""), p, scope=_re.compile(r"^harper_core::linting::"), what_scope="rule", floor=6)
+    except Exception as e:
+        ck.refuted("R-C03-units", "internal:%s" % type(e).__name__, "", "rule could not run: %s" % e)
     fs = byk.get("Suggestion::apply")
     if ck.anchor("R-C03-apply", "Suggestion::apply", fs):
         f = [x for x in fs if x.name.startswith("harper_core::")][0]
